@@ -219,13 +219,17 @@ def n3_setters(ctx):
                     if not fields:
                         continue
                     val = render(b.def_expr(i, 'stmt', s, 1, frozenset()))
-                    got.setdefault(fields[-1], []).append((fields, val, s['loc']))
+                    got.setdefault(fields[-1], []).append((fields, val, s['loc'], i))
         for fld, par in sorted(want.items()):
             rows = got.pop(fld, [])
             if len(rows) != 1:
                 ctx.finding('N3', '%s/%s/writes' % (name, fld.rsplit('.', 1)[1]), '%s writes %s %d times, expected once' % (name, fld, len(rows)), site=b.loc)
                 continue
-            fields, val, loc = rows[0]
+            fields, val, loc, wbid = rows[0]
+            # the setter stores on every path: no validation guard that silently keeps the old value
+            if not (wbid == 0 or wbid in b.postdominators().get(0, ())):
+                ctx.finding('N3', '%s/%s/conditional' % (name, fld.rsplit('.', 1)[1]), '%s stores %s only on some paths (a guard returns early and the old value stays configured): the setting a caller asked for is silently not applied' % (name, fld.rsplit('.', 1)[1]), site=loc)
+                continue
             grp = GROUP[name]
             grp_ok = grp is None or any(f.endswith('.' + grp) for f in fields)
             if val != par:
